@@ -66,5 +66,9 @@ CLAIMS["C14"] = {
     "text": "Bounded symbolic exploration of the real (*deploymentManager).run loop (with startDeploy/startTeardown/do/doDeploy/doTeardown): manifest updates, the lease-closed request, hostname-reservation results, deploy/teardown completions or failures and provider shutdown arrive in every scheduler-chosen order; obligations on the cluster-client call log: never two operations in flight, no deploy starts after teardown was requested, teardown only after the last deploy finished, a closed lease is torn down and its hostnames released, and when the manager goes idle without close or failure the last deploy used the most recently received manifest.",
     "note": LOOP_NOTE + " Depth 5 selects quick, 6 and 8 thorough; goroutine tasks complete in spawn order. The cluster service's release of the reservation on manager completion is not covered.",
 }
+CLAIMS["C20"] = {
+    "text": "Bounded symbolic exploration of the real manifest (*manager).run loop with validateRequests/validateRequest (real validators and version comparison), emitReceivedEvents, fillAllRequests and maybeFetchData: lease notifications, submissions (valid, other version, invalid), version updates, lease removals, fetch completions or failures and shutdown arrive in every scheduler-chosen order; obligations: every submission has exactly one reply when the manager terminates or goes idle (a second reply on the full capacity-1 channel is a blocked-forever outcome), the manager never hangs, and a manifest is announced only with a held lease, fetched chain data and a validated manifest.",
+    "note": LOOP_NOTE + " Depth 5 selects quick, 6-7 thorough. sdl.ManifestVersion is an injective tag in the engine (the hash itself is outside the family); the version COMPARISON in validateRequest (C10's first clause) runs for real.",
+}
 NOT_APPLICABLE = {}
 NOTES = "Work in progress: checks are added property by property; see DESIGN.md §9 for deviations from the plan."
